@@ -744,9 +744,11 @@ package core
 // nor the query objects.
 //@ ghost execIn []Bindings
 //@ ghost execOut []Bindings
+//@ ghost subErr bool gate
 //@ iface Query.Exec
 //@   ghost-ensures execIn == old(arg3.Bss) && (result1 == nil ==> result0 != nil && execOut == result0.Bss)
-//@   also-modifies execIn, execOut
+//@   ghost-ensures subErr == (old(subErr) || result1 != nil)
+//@   also-modifies execIn, execOut, subErr
 //@   modifies allbut(E:map[string]interface{}|F:core.QueryResult.|F:core.AndQuery.|F:core.OrQuery.|F:core.NotQuery.|F:core.PatternQuery.)
 
 //@ func (EmptyQuery).Exec
@@ -1148,3 +1150,16 @@ package core
 // of that kind (the comparator asserts the kind without checking: a nil or a map classified as a string would panic there)
 //@ func typeCode
 //@   ensures[C13.typecode_classifies_exactly] (result == 1) == is(x, string) && (result == 2) == is(x, float64) && (result == 3) == is(x, int) && (result == 4) == is(x, bool)
+
+// C03/C14: a sub-query that fails (a script that throws or times out, a failing search) fails the whole condition: and / or /
+// not hand the error up, whatever the other sub-queries produced ("never as success")
+//@ func (AndQuery).Exec
+//@   ensures[C03+C14.and_propagates_subquery_errors] subErr ==> result1 != nil
+//@   loop 1: invariant[C03+C14.and_error_loop] !subErr
+//@ func (OrQuery).Exec
+//@   ensures[C03+C14.or_propagates_subquery_errors] subErr ==> result1 != nil
+//@   loop 1: invariant[C03+C14.or_error_loop_outer] !subErr
+//@   loop 2: invariant[C03+C14.or_error_loop_inner] !subErr
+//@ func (NotQuery).Exec
+//@   ensures[C03+C14.not_propagates_subquery_errors] subErr ==> result1 != nil
+//@   loop 1: invariant[C03+C14.not_error_loop] !subErr
